@@ -57,4 +57,15 @@ PROPS = {
         "text": "After every step the raw blockstore and headstore of the touched node are scanned: each block filed under the hash of its bytes (also checked online on every write), links of everything reachable from heads resolve, height = 1 + max parent height, headstore entries of every document and field = frontier of the merged commits (model) and of the merged field blocks, cross-checked with latestCommits; same genesis on two nodes is the same block.",
         "note": "Frontier of composite commits comes from the harness model; frontier of field commits is computed from the blocks linked by merged composites. Blocks stored but not merged are allowed.",
     },
+    "C19": {
+        "engine": "E1", "level": "exploration", "design_ref": "DESIGN.md §5 C19",
+        "technique": "deterministic simulation: add-field patches and active-version switches interleaved with writes and merges between nodes on different schema versions; before/after dumps + reference model",
+        "rule": E1_RULE + "; plus schema steps (patch add field with/without activation, switch active version); non-trivial additionally needs >=1 schema step (counted in schema_patches / schema_switches)",
+        "real_vs_stub": REAL_E1, "assumptions": ASSUME_COMMON,
+        "probes": ["schema_patches", "schema_switches", "merge_of_field_unknown_to_receiver", "converged_checked"],
+        "quick": {"count": 100, "budget_s": 60, "workers": 16},
+        "thorough": {"count": 100000, "budget_s": 1500, "workers": 16},
+        "text": "Around every patch / version switch the values, ids and commit history of all documents on that node are compared; the reference model keeps being checked under the active version (added fields null, earlier values back after switching forth); merges between nodes on different versions must not fail and nodes must agree on the fields both know.",
+        "note": "A field whose write was merged while the receiver's active version lacked it carries no expectation on that receiver (the statement only demands agreement on fields both know). Patches form one linear chain of versions; no lens migrations.",
+    },
 }
